@@ -397,6 +397,9 @@ pub struct Case {
     pub cfg: bool,
     pub k: Option<usize>,
     pub ls: bool,
+    /// `ls=2`: like `ls=1` but the source hands out one BYTE per read, so that `@<delivered>` is
+    /// exactly how far the parser has looked (read boundaries fall inside `\r\n`, inside tokens …)
+    pub lsb: bool,
     pub data: Vec<u8>,
     pub expect: Option<String>,
     pub tok: Option<(usize, usize, usize)>,
@@ -413,7 +416,8 @@ impl Case {
             ty: f.get("ty").into(),
             cfg: f.get("cfg") == "1",
             k: match f.get("k") { "-" => None, s => Some(s.parse().unwrap()) },
-            ls: f.opt("ls") == Some("1"),
+            ls: matches!(f.opt("ls"), Some("1") | Some("2")),
+            lsb: f.opt("ls") == Some("2"),
             data: data_field(f.get("d")),
             expect: f.opt("x").map(|s| s.to_string()),
             tok: f.opt("t").map(|s| {
@@ -428,7 +432,7 @@ impl Case {
             "cnf fmt={} ty={} cfg={} k={} ls={} d={}{}{}",
             self.fmt, self.ty, self.cfg as u8,
             match self.k { Some(k) => k.to_string(), None => "-".into() },
-            self.ls as u8, hex(&self.data),
+            if self.lsb { 2 } else { self.ls as u8 }, hex(&self.data),
             match &self.expect { Some(x) => format!(" x={}", x), None => String::new() },
             match &self.tok { Some((l, c, n)) => format!(" t={}:{}:{}", l, c, n), None => String::new() },
         )
@@ -493,7 +497,8 @@ pub fn run_case(line: &str) -> (String, Vec<String>) {
 
     if c.ls {
         // C09: one line per read
-        let obs = run_parser(&c.fmt, &c.ty, c.cfg, mk(line_schedule(&delivered)), 16384);
+        let sched = if c.lsb { vec![Ev::Give(1); delivered.len() + 2] } else { line_schedule(&delivered) };
+        let obs = run_parser(&c.fmt, &c.ty, c.cfg, mk(sched), 16384);
         if obs.fin == "E:panic" {
             fails.push("C05:parser panicked".into());
         }
